@@ -4,90 +4,70 @@
 package scheduler
 
 import (
-	"encoding/json"
-	"fmt"
-	"os"
-	"path/filepath"
-	"sync"
+	"github.com/taskctl/taskctl/internal/veriftrace"
 )
 
 // With the build tag "verif" and VERIF_TRACE=<dir> set, every Schedule call of this process is
-// recorded as NDJSON events in <dir>/sched-<pid>.ndjson (used to validate the executions driven
-// by the repository's own tests against the specification). Nothing happens otherwise.
-
-type verifTracer struct {
-	mu     sync.Mutex
-	f      *os.File
-	seq    int
-	graphs map[*ExecutionGraph]int
-	stages map[*Stage]int // stage -> graph id
-}
-
-func (t *verifTracer) emit(ev map[string]interface{}) {
-	t.seq++
-	ev["seq"] = t.seq
-	b, _ := json.Marshal(ev)
-	_, _ = t.f.Write(append(b, '\n'))
-}
+// recorded through internal/veriftrace (used to validate the executions driven by the
+// repository's own tests and by the taskctl binary against the specification).
 
 func init() {
-	dir := os.Getenv("VERIF_TRACE")
-	if dir == "" {
+	if !veriftrace.Enabled() {
 		return
 	}
-	f, err := os.OpenFile(filepath.Join(dir, fmt.Sprintf("sched-%d.ndjson", os.Getpid())), os.O_CREATE|os.O_WRONLY|os.O_APPEND, 0o644)
-	if err != nil {
-		return
-	}
-	t := &verifTracer{f: f, graphs: map[*ExecutionGraph]int{}, stages: map[*Stage]int{}}
+	graphs := map[*ExecutionGraph]int{}
+	stages := map[*Stage]int{} // stage -> graph id
+	sched := map[*Scheduler]int{}
 	gid := func(g *ExecutionGraph) int {
-		id, ok := t.graphs[g]
+		id, ok := graphs[g]
 		if !ok {
-			id = len(t.graphs) + 1
-			t.graphs[g] = id
+			id = len(graphs) + 1
+			graphs[g] = id
 		}
 		return id
 	}
-	sched := map[*Scheduler]int{}
 	VerifScheduleHook = func(s *Scheduler, g *ExecutionGraph, enter bool, err error) {
-		t.mu.Lock()
-		defer t.mu.Unlock()
-		id := gid(g)
-		if _, ok := sched[s]; !ok {
-			sched[s] = id // the graph this scheduler was first asked to run
-		}
-		if !enter {
-			t.emit(map[string]interface{}{"e": "sched-exit", "g": id, "err": err != nil})
-			return
-		}
-		var stages []map[string]interface{}
-		for name, st := range g.Nodes() {
-			t.stages[st] = id
-			d := map[string]interface{}{"name": name, "deps": g.To(name), "allow": st.AllowFailure, "cond": st.Condition != "", "status": st.ReadStatus()}
-			if st.Pipeline != nil {
-				d["pipeline"] = gid(st.Pipeline)
+		veriftrace.Locked(func(emit func(map[string]interface{})) {
+			id := gid(g)
+			if _, ok := sched[s]; !ok {
+				sched[s] = id // the graph this scheduler was first asked to run
 			}
-			stages = append(stages, d)
-		}
-		t.emit(map[string]interface{}{"e": "sched-enter", "g": id, "stages": stages})
+			if !enter {
+				emit(map[string]interface{}{"e": "sched-exit", "g": id, "err": err != nil})
+				return
+			}
+			var list []map[string]interface{}
+			for name, st := range g.Nodes() {
+				stages[st] = id
+				d := map[string]interface{}{"name": name, "deps": g.To(name), "allow": st.AllowFailure, "cond": st.Condition != "", "status": st.ReadStatus()}
+				if st.Pipeline != nil {
+					d["pipeline"] = gid(st.Pipeline)
+				}
+				if st.Task != nil {
+					d["task"] = st.Task.Name
+				}
+				list = append(list, d)
+			}
+			emit(map[string]interface{}{"e": "sched-enter", "g": id, "stages": list})
+		})
 	}
 	VerifCancelHook = func(s *Scheduler) {
-		t.mu.Lock()
-		defer t.mu.Unlock()
-		t.emit(map[string]interface{}{"e": "cancel", "g": sched[s]})
+		veriftrace.Locked(func(emit func(map[string]interface{})) {
+			emit(map[string]interface{}{"e": "cancel", "g": sched[s]})
+		})
 	}
 	VerifStatusHook = func(st *Stage, status int32) {
-		t.mu.Lock()
-		defer t.mu.Unlock()
-		t.emit(map[string]interface{}{"e": "st", "g": t.stages[st], "s": st.Name, "v": status})
+		veriftrace.Locked(func(emit func(map[string]interface{})) {
+			emit(map[string]interface{}{"e": "st", "g": stages[st], "s": st.Name, "v": status})
+		})
 	}
 	VerifRunHook = func(st *Stage, enter bool, err error) {
-		t.mu.Lock()
-		defer t.mu.Unlock()
-		if enter {
-			t.emit(map[string]interface{}{"e": "enter", "g": t.stages[st], "s": st.Name})
-		} else {
-			t.emit(map[string]interface{}{"e": "ret", "g": t.stages[st], "s": st.Name, "failed": err != nil})
-		}
+		veriftrace.Locked(func(emit func(map[string]interface{})) {
+			if enter {
+				emit(map[string]interface{}{"e": "enter", "g": stages[st], "s": st.Name})
+			} else {
+				emit(map[string]interface{}{"e": "ret", "g": stages[st], "s": st.Name, "failed": err != nil})
+			}
+		})
 	}
 }
